@@ -20,7 +20,7 @@ record("DocTest",
        failed_part="DoctestPart|'<IMPORT>'",
        failed_tb_lineno="Optional[int]",
        warn_list="Optional[Val]",
-       callname="str", num="int", docsrc="str", mode="str", modpath="str", config="DoctestConfig",
+       callname="str", num="int", docsrc="str", mode="str", modpath="str", modname="str", config="DoctestConfig",
        _parts="reclist[DoctestPart]", logged_evals="map[int,Val]", logged_stdout="map[int,Val]",
        _unmatched_stdout="list[str]", _skipped_parts="idxlist[DoctestPart]", _suppressed_stdout="bool",
        _runstate="Optional[RuntimeState]", _partfilename="str", module="Optional[Val]",
